@@ -323,6 +323,76 @@ def _recorder(itree):
     return writes
 
 
+def _scheduler_job_end(repo):
+    """Who reaches `record_job_end`, and with what: in redun/scheduler.py the end of a job is recorded once on the
+    success path (`_resolve_job_main_thread`) and once on the failure path (`_reject_job_main_thread`); on the failure
+    path the call follows, in the same block, `job.call_hash = self.backend.record_call_node(...)`. A call from inside
+    an exception handler, a second call, or a call not preceded by the CallNode is outside the grammar (the recorder
+    model's `jobEnd` always has a recorded CallNode)."""
+    path = os.path.join(repo, "redun/scheduler.py")
+    tree = ast.parse(open(path).read())
+    sched = _find_class(tree, "Scheduler")
+
+    def is_end(call):
+        return isinstance(call, ast.Call) and ast.unparse(call.func).endswith("backend.record_job_end")
+
+    callers = {}
+    for fn in sched.body:
+        if isinstance(fn, (ast.FunctionDef, ast.AsyncFunctionDef)):
+            n = sum(1 for c in ast.walk(fn) if is_end(c))
+            if n:
+                callers[fn.name] = n
+    if set(callers) != {"_resolve_job_main_thread", "_reject_job_main_thread"} or callers["_resolve_job_main_thread"] != 1:
+        raise TranslateError("record_job_end is no longer called once from _resolve_job_main_thread and otherwise only from "
+                             "_reject_job_main_thread: %r" % callers)
+    for name in callers:
+        fn = _find_func(sched, name)
+        for h in ast.walk(fn):
+            if isinstance(h, ast.ExceptHandler) and any(is_end(c) for c in ast.walk(h)):
+                _fail(h, "%s records the end of a job from inside an exception handler" % name)
+    # failure path: every record_job_end is reached with a recorded CallNode - either `job.call_hash =
+    # ...record_call_node(...)` precedes it in its block, or it sits under an `if` that tests `job.call_hash`;
+    # and no exception handler finishes the job on its own
+    rej = _find_func(sched, "_reject_job_main_thread")
+    seen = [0]
+
+    def tests_call_hash(test):
+        parts = test.values if isinstance(test, ast.BoolOp) and isinstance(test.op, ast.And) else [test]
+        return any(ast.unparse(x) == "job.call_hash" for x in parts)
+
+    def walk(block, known):
+        for st in block:
+            if isinstance(st, ast.Assign) and ast.unparse(st.targets[0]) == "job.call_hash":
+                known = "backend.record_call_node" in ast.unparse(st.value)
+            elif isinstance(st, ast.Expr) and is_end(st.value):
+                seen[0] += 1
+                if not known:
+                    _fail(st, "_reject_job_main_thread: record_job_end is reached without a recorded CallNode "
+                              "(no preceding job.call_hash = record_call_node(...), no enclosing `if job.call_hash`)")
+            elif isinstance(st, ast.If):
+                walk(st.body, known or tests_call_hash(st.test))
+                walk(st.orelse, known)
+            elif isinstance(st, ast.Try):
+                walk(st.body, known)
+                walk(st.orelse, known)
+                walk(st.finalbody, known)
+                for h in st.handlers:
+                    for sub in ast.walk(h):
+                        if isinstance(sub, ast.Return) or (isinstance(sub, ast.Call) and ast.unparse(sub.func) in (
+                                "self._finalize_job", "job.reject", "job.resolve")):
+                            _fail(h, "_reject_job_main_thread: an exception handler finishes the job on its own")
+            elif isinstance(st, (ast.With, ast.For, ast.While)):
+                walk(st.body, known)
+                walk(getattr(st, "orelse", []), known)
+            elif any(is_end(c) for c in ast.walk(st)):
+                _fail(st, "_reject_job_main_thread: record_job_end in an unsupported statement")
+        return known
+
+    walk(rej.body, False)
+    if seen[0] != callers["_reject_job_main_thread"]:
+        _fail(rej, "_reject_job_main_thread: a record_job_end call sits where the translator does not look")
+
+
 def translate(repo: str) -> str:
     qpath = os.path.join(repo, "redun/backends/db/query.py")
     ipath = os.path.join(repo, "redun/backends/db/__init__.py")
@@ -424,6 +494,7 @@ else:
 
     # --- recorder: which of end_time / cached / call_hash do record_job_start and record_job_end write?
     start_writes_call_hash = _recorder(itree)
+    _scheduler_job_end(repo)
 
     names = tr.err_names | err_names
     if len(names) != 1:
